@@ -306,9 +306,21 @@ def r15_4(run):
     ss = anchor_func(run, f"{TENSOR}.shape.setter")
     cfg = build_cfg(run, ss, switch_assumptions(ss, track=False))
     stmts = [s for n, s in cfg.stmt.items() if cfg.reachable(n) and isinstance(s, ast.stmt)]
-    ok = len(stmts) == 2 and isinstance(stmts[0], ast.Assign) and norm(stmts[0].targets[0]) == "self.data.shape" and isinstance(stmts[1], ast.Return)
-    run.ob("R15.4", loc(ss, ss.node), ss.short, "[TRACK_GRAPH=F] shape assignment is a plain store on the array", ok,
-           "self.data.shape = newshape; return" if ok else "untracked shape assignment touches the graph")
+    store = [s for s in stmts if isinstance(s, ast.Assign) and norm(s.targets[0]) == "self.data.shape"]
+    graphy = []
+    for s in stmts:
+        for c in ast.walk(s):
+            if isinstance(c, ast.Call) and (dotted(c.func) or "").split(".")[-1] in (
+                    "DuplicatingGraph", "mirror_tensor", "reroute_ops_through", "_replay_op", "reshape", "_op", "_in_place_op", "make_placeholder_tensor"):
+                graphy.append(c)
+        if isinstance(s, (ast.Assign, ast.AugAssign)):
+            for t in (s.targets if isinstance(s, ast.Assign) else [s.target]):
+                if isinstance(t, ast.Attribute) and t.attr in ("_creator", "_view_children", "_ops"):
+                    graphy.append(s)
+    ok = bool(store) and not graphy
+    run.ob("R15.4", loc(ss, graphy[0] if graphy else ss.node), ss.short, "[TRACK_GRAPH=F] shape assignment re-shapes the array and engages no graph machinery", ok,
+           f"{len(stmts)} reachable statement(s): the store to self.data.shape (+ dropping the stale gradient), no placeholder graph / replay / mirror" if ok else
+           (f"untracked shape assignment touches the graph: {norm(graphy[0])[:60]}" if graphy else "the array is not re-shaped"))
     # the grad property replays view ops untracked
     # Tensor.__init__: dtype gate is skipped only by reading the live switch
     init = anchor_func(run, f"{TENSOR}.__init__")
